@@ -120,6 +120,7 @@ def check(repo, tier="quick"):
     res.rule("C01.d", "each structure rule of the statement keeps a reachable, conditional raise site")
     res.rule("C01.e", "level ordering patterns: symbols are parse-code names, admit sequence_header first, and implemented language = reference language")
     res.rule("C01.f", "bookkeeping the rules depend on is updated on every normal path (offsets, picture numbers, fragment counters, level matcher)")
+    res.rule("C01.i", "raster order of fragment slices: FragmentSlicesNotContiguous is raised exactly when the coded (x, y) offset of a fragment's first slice differs, coordinate by coordinate, from (received % slices_x, received // slices_x); a comparison of the raster index y*slices_x + x alone also accepts x >= slices_x")
     res.rule("C01.g", "the evaluation of each structure check depends only on its documented applicability conditions (control-dependence signature within the allowed set)")
 
     sf = analyses.validator_stateflow(repo)
@@ -132,6 +133,11 @@ def check(repo, tier="quick"):
     rule_f(repo, res)
     rule_g(repo, res, sf)
     res.floor("C01.g", len(STRUCTURE_EXCEPTIONS))
+    rule_i(repo, res)
+    res.floor("C01.i", 2)
+    from .c07 import version_logging_rule
+
+    version_logging_rule(repo, res, "C01.f")
     from .. import lints as _lints
 
     _lints.rule(repo, res, "C01.h", ['decoder.stream', 'decoder.fragment_syntax', 'decoder.assertions', 'decoder.sequence_header', 'decoder.picture_syntax', 'decoder.transform_data_syntax', 'decoder.io', 'pseudocode.state'])
@@ -286,6 +292,28 @@ def rule_c(repo, res):
         if isinstance(s, ast.Assign) and subscript_key(s.value, "state") == "_recorded_bytes" and isinstance(s.targets[0], ast.Name):
             var = s.targets[0].id
     res.check(bool(rets) and var is not None and all(dotted(r.value) == var for r in rets), "C01.c", "record_bitstream_finish:returns-recording", "%s:record_bitstream_finish" % im.rel, "record_bitstream_finish does not return state['_recorded_bytes']", by="returns the recorded bytearray")
+    # the partially consumed last byte: bits already read are kept, unread bits zeroed.  next_bit is the index of the
+    # next bit to be read (7 = nothing read yet), so the bits read are those above it: mask = ~((1 << (next_bit + 1)) - 1)
+    from ..core import pfind as _pf
+    from .c20 import inline_locals as _inl
+
+    st_ = fin.args.args[0].arg
+    ok = False
+    found = "no append of the masked current byte found"
+    for c in ast.walk(fin):
+        if isinstance(c, ast.Call) and isinstance(c.func, ast.Attribute) and c.func.attr == "append" and dotted(c.func.value) == var and c.args:
+            e = _inl(fin, c.args[0])
+            found = short(e, 120)
+            forms = [
+                "%(s)s['current_byte'] & ~((1 << %(s)s['next_bit'] + 1) - 1)",
+                "~((1 << %(s)s['next_bit'] + 1) - 1) & %(s)s['current_byte']",
+                "%(s)s['current_byte'] & 255 << %(s)s['next_bit'] + 1 & 255",
+                "%(s)s['current_byte'] >> %(s)s['next_bit'] + 1 << %(s)s['next_bit'] + 1",
+            ]
+            masked = norm(e) in [norm(ast.parse(f % {"s": st_}).body[0].value) for f in forms]
+            gs = [norm(t) for t, pol in _guards_chain(c, fin) if pol]
+            ok = masked and gs in (["%s['next_bit'] != 7" % st_], ["%s['next_bit'] < 7" % st_])
+    res.check(ok, "C01.c", "record_bitstream_finish:partial-byte-mask", "%s:record_bitstream_finish" % im.rel, "when the recording ends inside a byte (next_bit != 7) the byte must be appended with exactly the bits already read kept, i.e. masked with ~((1 << (next_bit + 1)) - 1) (found `%s`): another mask makes headers that differ in their last bits compare equal, or equal headers followed by different padding compare different" % found, by="current_byte & ~((1 << (next_bit + 1)) - 1) under next_bit != 7")
     rm, rb = repo.func("decoder.io:read_byte")
     appends = any(
         isinstance(n, ast.Call) and isinstance(n.func, ast.Attribute) and n.func.attr == "append" and subscript_key(n.func.value, "state") == "_recorded_bytes" and n.args and subscript_key(n.args[0], "state") == "current_byte"
@@ -638,3 +666,46 @@ def rule_g(repo, res, sf):
                 okown = any(own == w for w in OWN_CONDITION_READS[cls])
                 res.check(okown, "C01.g", "condition:%s@%s:%s" % (cls, fn.name, ",".join(sorted(own))[:60]), "%s:%s" % (m.rel, fn.name), "the condition of the %s check reads %s; the rule compares %s -- %s" % (cls, sorted(own), " or ".join(str(sorted(w)) for w in OWN_CONDITION_READS[cls]), "it now also depends on %s, so histories where that is false escape the rule" % sorted(own - set().union(*OWN_CONDITION_READS[cls])) if own - set().union(*OWN_CONDITION_READS[cls]) else "an operand of the rule is no longer consulted"), by="condition reads exactly %s" % sorted(own))
             res.check(not extra, "C01.g", "deps:%s@%s" % (cls, fn.name), "%s:%s" % (m.rel, fn.name), "whether the %s check is evaluated now also depends on %s (allowed: %s): histories where that condition fails are no longer checked" % (cls, extra, sorted(allowed)), by="depends only on %s" % (sorted(sig) or "nothing"))
+
+
+def rule_i(repo, res):
+    from .c20 import inline_locals
+
+    m, fn = repo.func("decoder.fragment_syntax:fragment_header")
+    where = "%s:fragment_header" % m.rel
+    st = fn.args.args[0].arg
+    raises = [r for r in ast.walk(fn) if isinstance(r, ast.Raise) and isinstance(r.exc, ast.Call) and dotted(r.exc.func) == "FragmentSlicesNotContiguous"]
+    res.check(len(raises) == 1, "C01.i", "contiguity:single-raise-site", where, "exactly one raise of FragmentSlicesNotContiguous expected (found %d)" % len(raises), by="one raise site")
+    if len(raises) != 1:
+        return
+    p = getattr(raises[0], "_parent", None)
+    ok = False
+    found = "raise is not the body of an if"
+    if isinstance(p, ast.If) and raises[0] in p.body and not p.orelse:
+        t = inline_locals(fn, p.test)
+        found = short(t, 160)
+        X, Y, R, SX = ("%s['fragment_x_offset']" % st, "%s['fragment_y_offset']" % st, "%s['fragment_slices_received']" % st, "%s['slices_x']" % st)
+        ex, ey = "%s %% %s" % (R, SX), "%s // %s" % (R, SX)
+
+        def n(src):
+            return norm(ast.parse(src).body[0].value)
+
+        if isinstance(t, ast.BoolOp) and isinstance(t.op, ast.Or) and len(t.values) == 2:
+            got = set(norm(v) for v in t.values)
+            ok = got in ({n("%s != %s" % (X, ex)), n("%s != %s" % (Y, ey))}, {n("%s != %s" % (ex, X)), n("%s != %s" % (ey, Y))})
+        elif isinstance(t, ast.Compare) and len(t.ops) == 1 and isinstance(t.ops[0], ast.NotEq):
+            ok = norm(t) in (n("(%s, %s) != (%s, %s)" % (X, Y, ex, ey)), n("(%s, %s) != divmod(%s, %s)" % (Y, X, R, SX)), n("(%s, %s) != (%s, %s)" % (Y, X, ey, ex)))
+    res.check(ok, "C01.i", "contiguity:coordinatewise", where, "the contiguity test must compare fragment_x_offset with received %% slices_x and fragment_y_offset with received // slices_x separately (found `%s`): equality of the raster index alone accepts offsets outside the slice grid that alias a valid index" % found, by="x != received %% slices_x or y != received // slices_x")
+
+
+def _guards_chain(node, top):
+    out = []
+    c, p = node, getattr(node, "_parent", None)
+    while p is not None and p is not top:
+        if isinstance(p, ast.If):
+            if any(c is x for x in p.body):
+                out.append((p.test, True))
+            elif any(c is x for x in p.orelse):
+                out.append((p.test, False))
+        c, p = p, getattr(p, "_parent", None)
+    return out
